@@ -79,7 +79,8 @@ def mpbfl_dir_towards(f, x, y):
 def mpbfl_step_fails(f, x, d, allow_inf):
     """the step leaves the finite range and the infinity beyond it is not available"""
     t = mpbfl_xord(f, x) + d
-    return (t > f._pos_maxval_ord or t < f._neg_maxval_ord) and not (allow_inf and f.enable_inf)
+    return (((t > f._pos_maxval_ord or t < f._neg_maxval_ord) and not (allow_inf and f.enable_inf))
+            or t > f._pos_maxval_ord + 1 or t < f._neg_maxval_ord - 1)     # nothing lies beyond an infinity
 
 
 def mpbfl_step_post(f, x, d, r):
